@@ -27,6 +27,7 @@ mod metadata;
 mod c20;
 mod c21;
 mod driver;
+mod iohook;
 
 pub fn mix(a: u64, b: u64) -> u64 {
     let mut x = a ^ b.rotate_left(32) ^ 0xD6E8FEB86659FD93;
